@@ -35,9 +35,34 @@ func bvToIntS(x *Term) *Term {
 	return Ite(neg, IntBin("-", mk("bv2nat", -1, x), two), mk("bv2nat", -1, x))
 }
 
+// intToBV: x mod 2^w as a bit-vector. Reduction modulo 2^w is a ring homomorphism, so sums, differences
+// and products are translated structurally; this keeps int2bv (which the solvers handle poorly) out of
+// the common conversions big.Int -> (u)int64.
 func intToBV(w int, x *Term) *Term {
 	if x.IsConst() {
 		return BVConst(w, x.Val)
+	}
+	switch x.Op {
+	case "+":
+		return BVBin("bvadd", intToBV(w, x.Args[0]), intToBV(w, x.Args[1]))
+	case "-":
+		if len(x.Args) == 2 {
+			return BVBin("bvsub", intToBV(w, x.Args[0]), intToBV(w, x.Args[1]))
+		}
+	case "*":
+		return BVBin("bvmul", intToBV(w, x.Args[0]), intToBV(w, x.Args[1]))
+	case "ite":
+		return Ite(x.Args[0], intToBV(w, x.Args[1]), intToBV(w, x.Args[2]))
+	case "bv2nat":
+		a := x.Args[0]
+		switch {
+		case a.W == w:
+			return a
+		case a.W > w:
+			return Extract(w-1, 0, a)
+		default:
+			return ZeroExt(w-a.W, a)
+		}
 	}
 	return mk("int2bv", w, x)
 }
@@ -100,6 +125,51 @@ func initBig() {
 			}
 		}
 		return setRecv(a, bvToIntU(cat))
+	}
+	intrinsics["(*math/big.Int).Exp"] = func(in *Interp, fn *ssa.Function, a []Value) Value {
+		x, y := bigOf(a[1]), bigOf(a[2])
+		if !y.IsConst() || (a[3].(*Value) != nil) {
+			in.fail("big.Int.Exp with symbolic exponent or modulus")
+		}
+		if x.IsConst() {
+			return setRecv(a, IntConst(new(big.Int).Exp(x.Val, y.Val, nil)))
+		}
+		n := int(y.Val.Int64())
+		if n > 8 {
+			in.fail("big.Int.Exp: symbolic base with exponent > 8")
+		}
+		r := IntConst(big.NewInt(1))
+		for i := 0; i < n; i++ {
+			r = IntBin("*", r, x)
+		}
+		return setRecv(a, r)
+	}
+	intrinsics["(*math/big.Int).Neg"] = func(in *Interp, fn *ssa.Function, a []Value) Value {
+		return setRecv(a, IntBin("-", IntConst(big.NewInt(0)), bigOf(a[1])))
+	}
+	intrinsics["(*math/big.Int).Abs"] = func(in *Interp, fn *ssa.Function, a []Value) Value {
+		x := bigOf(a[1])
+		return setRecv(a, Ite(IntCmp("<", x, IntConst(big.NewInt(0))), IntBin("-", IntConst(big.NewInt(0)), x), x))
+	}
+	intrinsics["(*math/big.Int).IsUint64"] = func(in *Interp, fn *ssa.Function, a []Value) Value {
+		x := bigOf(a[0])
+		return And(IntCmp(">=", x, IntConst(big.NewInt(0))), IntCmp("<", x, IntConst(new(big.Int).Lsh(big.NewInt(1), 64))))
+	}
+	intrinsics["(*math/big.Int).IsInt64"] = func(in *Interp, fn *ssa.Function, a []Value) Value {
+		x := bigOf(a[0])
+		lim := new(big.Int).Lsh(big.NewInt(1), 63)
+		return And(IntCmp(">=", x, IntConst(new(big.Int).Neg(lim))), IntCmp("<", x, IntConst(lim)))
+	}
+	intrinsics["(*math/big.Int).SetString"] = func(in *Interp, fn *ssa.Function, a []Value) Value {
+		str, ok := a[1].(Str).Concrete()
+		if !ok {
+			in.fail("big.Int.SetString of a symbolic string")
+		}
+		z, good := new(big.Int).SetString(str, int(concInt(a[2])))
+		if !good {
+			return Tuple{(*Value)(nil), tFalse}
+		}
+		return Tuple{setRecv(a, IntConst(z)), tTrue}
 	}
 	intrinsics["(*math/big.Int).String"] = func(in *Interp, fn *ssa.Function, a []Value) Value { return concreteStr("<big>") }
 	intrinsics["(*math/big.Int).Bytes"] = func(in *Interp, fn *ssa.Function, a []Value) Value {
